@@ -334,6 +334,17 @@ func (x *X) CtxChecked(oks ...bool) context.Context {
 	return x.ctx
 }
 
+// LateTok is what a later argument's side effect writes into the variables that an earlier argument reads
+// plainly; a user function that receives it shows that the earlier argument was evaluated after the later one.
+const LateTok = -15
+
+// Then returns v after running the side effect f; used inside a wrapped argument expression:
+// h.Arg(x, k, h.Then(func() { pv1.Tok = h.LateTok }, expr)).
+func Then[T any](f func(), v T) T {
+	f()
+	return v
+}
+
 // Ctx is the expression used as the directive's context argument.
 func (x *X) Ctx() context.Context { return x.ctx }
 
